@@ -175,6 +175,12 @@ func (uv *UtxoVM) CheckInputEqualOutput(tx *pb.Transaction) error {
 			uv.log.Warn("this utxo still be frozen", "frozenHeight", frozenHeight, "ledgerHeight", curLedgerHeight)
 			return ErrUTXOFrozen
 		}
+		if frozenHeight != txInput.FrozenHeight {
+			// undo restores the utxo with the frozen height the input cites, so it must be the real one
+			uv.log.Warn("unexpected error, txInput frozen height missmatch utxo frozen height",
+				"in_utxo", frozenHeight, "txInputFrozenHeight", txInput.FrozenHeight, "txid", utils.F(tx.Txid))
+			return ErrUnexpected
+		}
 		inputSum.Add(inputSum, amount)
 	}
 	if inputSum.Cmp(outputSum) == 0 {
